@@ -4,7 +4,8 @@
 modules (except `deep.logging` and `ConfigService.__getattribute__`) with one counting wrapper; `wrap_class`
 does the same for harness plugin classes and host-program classes.  While `TriggerHandler.trace_call` is on the
 stack of the current thread ("active"), every wrapped call is an *internal call boundary*: it is counted, and the
-k-th one raises `FaultExc` (an `Exception` subclass) or `FaultBase` (a `BaseException` subclass) *instead of*
+k-th one raises `FaultExc` (an `Exception` subclass), `FaultBase` (a `BaseException` subclass), or a subclass of the
+BUILT-IN `SystemExit` / `KeyboardInterrupt` (classes 'sysexit' / 'kbint') *instead of*
 running the callee.  The entry point itself is not an injection site.
 
 What is recorded for the one fault of a run (strings only — no frames, no exception objects are kept alive):
@@ -37,6 +38,17 @@ class FaultBase(BaseException):
     pass
 
 
+class FaultExit(SystemExit):
+    """the BUILT-IN exit request (a plugin / host dunder calling sys.exit()) raised at an internal call boundary"""
+
+
+class FaultInterrupt(KeyboardInterrupt):
+    """the BUILT-IN interrupt (ctrl-c arriving inside a host dunder) raised at an internal call boundary"""
+
+
+FAULT_CLASSES = {}
+
+
 class State:
     def __init__(self):
         self.reset()
@@ -67,6 +79,9 @@ SRC = os.path.realpath(core.SRC)
 _wrapped = {}           # id(original function) -> wrapper
 _originals = {}         # id(wrapper) -> original
 _WRAPPER_CODES = set()
+
+
+FAULT_CLASSES.update({'exc': FaultExc, 'base': FaultBase, 'sysexit': FaultExit, 'kbint': FaultInterrupt})
 
 
 def _tls():
@@ -186,13 +201,13 @@ def _make_wrapper(fn, label, is_entry):
             st.region = _region(fr)
             st.invs = [(i, lab) for i, lab in reversed(t.invs)]
             del fr
-            raise (FaultBase if st.cls == 'base' else FaultExc)('injected fault #%d at %s' % (n, label))
+            raise FAULT_CLASSES.get(st.cls, FaultExc)('injected fault #%d at %s' % (n, label))
         t.seq += 1
         inv = t.seq
         t.invs.append((inv, label))
         try:
             return fn(*a, **kw)
-        except (FaultExc, FaultBase):
+        except (FaultExc, FaultBase, FaultExit, FaultInterrupt):
             st.passed.append(inv)
             raise
         finally:
